@@ -256,12 +256,16 @@ def file_feature(desc, exp):
   return ""
 
 
+# pairing key of a subtitle: its non-space characters, alternative renderings of one cell mapped to the first one
+CANON = {alt: v[0] for v in G.LATIN_UPPER.values() for alt in v[1:]}
+
+
 def text_key(lines):
-  return "\n".join("".join(c[0] for c in l if not c[0].isspace()) for l in lines)
+  return "\n".join("".join(CANON.get(c[0], c[0]) for c in l if not c[0].isspace()) for l in lines)
 
 
 def exp_key(lines):
-  return "\n".join("".join(c[0][0] for c in l) for l in lines)
+  return "\n".join("".join(CANON.get(c[0][0], c[0][0]) for c in l) for l in lines)
 
 
 # ------------------------------------------------------------------------------------------------ the check
@@ -503,11 +507,8 @@ def check_isd(desc, exp, doc, ctx, res):
         for b, d in compare_lines(w, x, "isd", ctx):
           res.fail(b, "t=%s: %s" % (t, d))
     elif wk != gk and not any(b.startswith("isd-text") or b.startswith("model-text") for b, _ in res.fails):
-      # same count but other text: only report when no text difference was reported already
-      alt = [[c[0] for l in w for c in l] for w in want]
-      flat = ["".join(ch for ch in k if ch != "\n") for k in gk]
-      if any(len(a) != len(f) or any(ch not in c for ch, c in zip(f, a)) for a, f in zip(alt, flat)):
-        res.fail("isd:visible-set:%s" % tag, "t=%s (%s): expected %r got %r" % (t, tag, wk, gk))
+      # same count but other text: only reported when no text difference was reported already
+      res.fail("isd:visible-set:%s" % tag, "t=%s (%s): expected %r got %r" % (t, tag, wk, gk))
 
 
 def classify(desc, exp, res):
